@@ -194,8 +194,8 @@ pub fn run_with(
                                 3 => drop(conn.send_list(mpd_protocol::CommandList::new(mpd_protocol::Command::new("status")).command(mpd_protocol::Command::new("idle")))),
                                 _ => {}
                             }
-                            // (one connection in eight: a thread per call is expensive)
-                            move_next = salt & 7 == 0 && (interruptions == 2 || interruptions == 7);
+                            // (one connection in 32: a thread per call is expensive)
+                            move_next = salt & 31 == 0 && (interruptions == 2 || interruptions == 7);
                             continue;
                         }
                         Err(e) => break terminal_of(&e),
@@ -360,7 +360,7 @@ fn receive_cancelling(conn: &mut AsyncConnection<AsyncChunkReader>, salt: u64) -
             let _ = fut.as_mut().poll(&mut cx);
         });
         // attempts 3 and 8 are made on another thread (the connection is Send)
-        let polled = if salt & 7 == 0 && (attempt == 2 || attempt == 7) {
+        let polled = if salt & 31 == 0 && (attempt == 2 || attempt == 7) {
             crate::core::on_other_thread(|| {
                 let mut cx = Context::from_waker(Waker::noop());
                 let mut fut = std::pin::pin!(conn.receive());
